@@ -168,6 +168,9 @@ func (g *gobj) showState(st objState) string {
 
 // wantAdj: the adjacency entries the valid edge lines of the object call for, per vertex, in insertion order
 func (g *gobj) wantAdj() [][]arc {
+	if g.wadj != nil {
+		return g.wadj
+	}
 	adj := make([][]arc, g.n)
 	for _, e := range g.edges {
 		a, b := e.u, e.v
@@ -179,6 +182,7 @@ func (g *gobj) wantAdj() [][]arc {
 			adj[e.v] = append(adj[e.v], arc{e.u, a, b, e.w})
 		}
 	}
+	g.wadj = adj
 	return adj
 }
 
@@ -370,6 +374,39 @@ func execStateOp(wl *world, g *gobj, f []string, i int, bad func(int, string, ..
 		}
 		return "ok " + g.showArcs(l)
 
+	case "adjappend":
+		// The caller appends to the slice Adj(v) returned (it never writes inside the slice: Adj hands out the graph's
+		// own list, and what happens to a graph whose list the caller edits is nobody's promise).  An append writes
+		// behind the slice's length — into spare capacity of the list, if there is any — and must not change what the
+		// graph holds, for this vertex or any other.
+		if len(f) != 2 {
+			return "bad-op"
+		}
+		v, ok := atoi(f[1])
+		if !ok {
+			return "bad-op"
+		}
+		switch g.kind {
+		case "directed":
+			l := g.d.Adj(v)
+			l = append(l, -7, -8)
+			_ = l
+		case "undirected":
+			l := g.u.Adj(v)
+			l = append(l, -7, -8)
+			_ = l
+		case "wdirected":
+			l := g.wd.Adj(v)
+			l = append(l, graph.VerifDirectedEdge(-7, -7, -7), graph.VerifDirectedEdge(-8, -8, -8))
+			_ = l
+		default:
+			l := g.wu.Adj(v)
+			l = append(l, graph.VerifUndirectedEdge(-7, -7, -7), graph.VerifUndirectedEdge(-8, -8, -8))
+			_ = l
+		}
+		g.checkState(g.readState(i, bad), "graph after the caller appended to the slice Adj returned", i, bad)
+		return "ok"
+
 	case "traverse":
 		// Traverse with caller-supplied visitors: every callback is logged; from callback number `stop` (counted from
 		// 0) on the visitors answer false.  Oracle (property level): nothing is visited twice, only
@@ -411,7 +448,10 @@ func execStateOp(wl *world, g *gobj, f []string, i int, bad func(int, string, ..
 		}
 		var reach []bool
 		if valid(s) {
-			reach = g.reachAll()[s]
+			reach = make([]bool, g.n)
+			for v, d := range g.bfsDist(s) {
+				reach[v] = d >= 0
+			}
 		}
 		vis := &graph.Visitors{
 			VertexPreOrder: func(v int) bool {
@@ -529,7 +569,37 @@ func execStateOp(wl *world, g *gobj, f []string, i int, bad func(int, string, ..
 		if !same {
 			bad(i, "Edges() = [%s] does not list every edge between distinct vertices exactly once", strings.Join(parts, " "))
 		}
-		return "ok [" + strings.Join(parts, " ") + "]"
+		// the caller overwrites the slice it was given and asks again
+		line := func() string {
+			var ps []string
+			if g.kind == "wdirected" {
+				l := g.wd.Edges()
+				for _, e := range l {
+					ps = append(ps, fmt.Sprintf("%d>%d:%d", e.From(), e.To(), g.unscale(e.Weight(), i, bad)))
+				}
+				for k := range l {
+					l[k] = graph.VerifDirectedEdge(-1, -1, -1)
+				}
+			} else {
+				l := g.wu.Edges()
+				for _, e := range l {
+					a := e.Either()
+					ps = append(ps, fmt.Sprintf("%d-%d:%d", a, e.Other(a), g.unscale(e.Weight(), i, bad)))
+				}
+				for k := range l {
+					l[k] = graph.VerifUndirectedEdge(-1, -1, -1)
+				}
+			}
+			return strings.Join(ps, " ")
+		}
+		first := strings.Join(parts, " ")
+		for pass := 0; pass < 2; pass++ {
+			if again := line(); again != first {
+				bad(i, "Edges() = [%s] first and [%s] after the caller overwrote the returned slice", first, again)
+				break
+			}
+		}
+		return "ok [" + first + "]"
 	}
 	return "bad-op"
 }
